@@ -75,12 +75,13 @@ PAGE_LINKS = ['!' + p for p in NETWORK + WE_LINKS + PAGELINK_PAGING + MOST_LINKE
 MONO = ['R-MONOTONE-CALLERS', 'R-MONOTONE-POINTERS']
 WE_FILTERS = ['Traph.get_webentity_pagelinks_iter', 'Traph.paginate_webentity_pagelinks']
 # rule groups: necessary conditions shared by several properties
-TRIE = ['R-FRESH', 'R-DIRTY-WRITTEN', 'R-BST-AGREE', 'R-PARENT-PAIR', 'R-TAIL-PROTOCOL', 'R-READ-RESETS', 'R-CHUNK-LAST', 'R-LRU-ASSEMBLY'] + MONO
+TRIE = ['R-FRESH', 'R-DIRTY-WRITTEN', 'R-BST-AGREE', 'R-PARENT-PAIR', 'R-TAIL-PROTOCOL', 'R-READ-RESETS', 'R-CHUNK-LAST', 'R-LRU-ASSEMBLY', 'R-OPEN-TABLE', 'R-NO-STALE-CACHE'] + MONO
 LINKS = ['R-LINK-PAIR', 'R-HEAD-REPOINT', 'R-LINK-WALK', 'R-DIRECTION', 'R-NO-EARLY-EXIT']
 RESOLVE = ['R-TRACK-AGREE', 'R-OWN-ERROR', 'R-NO-STALE-CACHE', 'R-LRU-ASSEMBLY', 'R-NEAREST-WE']
 WALK = ['R-RELEVANCE', 'R-STACK-BLOCKS', 'R-EVERY-PREFIX', 'R-NO-EARLY-EXIT', 'R-NODE-ALIAS']
 
-READ_BASICS = ['R-TAIL-PROTOCOL', 'R-READ-RESETS', 'R-BST-AGREE', 'R-PRIMITIVES', 'R-STORAGE-IFACE', 'R-STORAGE-SEM', 'R-FRESH', 'R-DIRTY-WRITTEN']
+READ_BASICS = ['R-TAIL-PROTOCOL', 'R-READ-RESETS', 'R-BST-AGREE', 'R-PRIMITIVES', 'R-STORAGE-IFACE', 'R-STORAGE-SEM', 'R-FRESH', 'R-DIRTY-WRITTEN', 'R-OPEN-TABLE',
+               'R-CHUNK-LAST', 'R-NO-STALE-CACHE']
 
 
 def G(pid):
@@ -91,12 +92,12 @@ RULESETS = {
  'C01': TRIE + ['R-CRAWLED', 'R-PAGE-REPORT', 'R-READONLY', 'R-ARGS-HONOURED', 'R-ENUM-FILTERS', 'R-ALLOC', 'R-GEOMETRY', 'R-LINK-PAIR', 'R-PRIMITIVES'] + [('R-WRAPPERS', ['Traph.index_batch_crawl'])] + ['R-NODE-ALIAS'] + ['R-EVERY-ITEM', 'R-STORAGE-IFACE', 'R-STORAGE-SEM'] + G('C01'),
  'C02': TRIE + ['R-GEOMETRY', 'R-ACCESSOR-TABLE', 'R-STORAGE-IFACE', 'R-STORAGE-SEM', 'R-STORAGE-STATELESS', 'R-PRIMITIVES'] + G('C02'),
  'C03': LINKS + ['R-ACCESSOR-TABLE', ('R-FILTER-AGREE', ['Traph.get_page_links']), 'R-FRESH', 'R-DIRTY-WRITTEN', ('R-NULL-HEAD', PAGE_LINKS), 'R-ARGS-HONOURED', 'R-DEGREE-FLAGS',
-         'R-PRIMITIVES'] + [('R-WRAPPERS', ['Traph.index_batch_crawl'])] + ['R-EVERY-ITEM'] + G('C03'),
+         'R-PRIMITIVES'] + [('R-WRAPPERS', ['Traph.index_batch_crawl'])] + ['R-EVERY-ITEM'] + READ_BASICS + G('C03'),
  'C04': RESOLVE + ['R-BST-AGREE', 'R-TAIL-PROTOCOL', 'R-READ-RESETS', 'R-WE-ATTACH', 'R-FRESH', 'R-DIRTY-WRITTEN', 'R-ARGS-HONOURED', 'R-PREFIX-EDIT', 'R-REFUSE-CLEAN',
                    'R-LADDER-AGREE', 'R-PRIMITIVES'] + READ_BASICS + G('C04'),
- 'C05': WALK + RESOLVE + ['R-READ-RESETS', 'R-TAIL-PROTOCOL', 'R-ENUM-FILTERS', 'R-BST-AGREE', 'R-ACCUMULATE', 'R-PRIMITIVES'] + [('R-WRAPPERS', ['Traph.get_webentity_pages', 'Traph.get_webentity_crawled_pages'])] + READ_BASICS + G('C05'),
+ 'C05': WALK + RESOLVE + ['R-READ-RESETS', 'R-TAIL-PROTOCOL', 'R-ENUM-FILTERS', 'R-BST-AGREE', 'R-ACCUMULATE', 'R-PRIMITIVES'] + [('R-WRAPPERS', ['Traph.get_webentity_pages', 'Traph.get_webentity_crawled_pages'])] + READ_BASICS + ['R-REFUSE-CLEAN', 'R-PREFIX-EDIT', 'R-WE-ATTACH'] + G('C05'),
  'C06': ['R-LADDER-AGREE', 'R-TRACK-AGREE', 'R-RULES-TO-APPLY', 'R-ID', 'R-RULE-INSTALL', 'R-WE-ATTACH', 'R-VARIATIONS', 'R-BST-AGREE', 'R-SKIP-CHILDLESS', 'R-PREFIX-EDIT',
-         'R-FRESH', 'R-DIRTY-WRITTEN', 'R-PRIMITIVES'] + [('R-WRAPPERS', ['Traph.add_webentity_creation_rule'])] + ['R-OPEN-TABLE', ('R-READONLY', ['Traph.get_potential_prefix'])] + G('C06'),
+         'R-FRESH', 'R-DIRTY-WRITTEN', 'R-PRIMITIVES'] + [('R-WRAPPERS', ['Traph.add_webentity_creation_rule'])] + ['R-OPEN-TABLE', ('R-READONLY', ['Traph.get_potential_prefix'])] + ['R-CLEAR-AGREE'] + G('C06'),
  'C07': ['R-PROPAGATE', ('R-FILTER-AGREE', NETWORK), ('R-MEMO-KEY', NETWORK), ('R-NULL-HEAD', NETWORK), 'R-NO-STALE-CACHE', 'R-LRU-ASSEMBLY', 'R-ARGS-HONOURED', 'R-NEAREST-WE',
          ('R-ACCUMULATE', NETWORK)] + LINKS + READ_BASICS + [('R-WRAPPERS', NETWORK)] + ['R-NODE-ALIAS'] + ['R-EVERY-ITEM'] + G('C07'),
  'C08': [('R-NULL-HEAD', WE_LINKS), ('R-FILTER-AGREE', WE_FILTERS + WE_LINKS), ('R-MEMO-KEY', ['!Traph.get_webentities_*']), 'R-NO-STALE-CACHE', 'R-DISTINCT-DEGREE',
